@@ -56,7 +56,8 @@ DYNAMIC_UNIONS = [["d_char", "u16"], ["d_u16", "u32"], ["u8", "d_char"], ["u32",
 
 # fixed-size unions for the round-trip pipelines (the member-coherence clauses live in C11): ties between an anonymous
 # struct with holes (padding, partly used bit-field unit) and a plain member, in both declaration orders
-FIXED_UNIONS = [["anon_s", "u32"], ["u32", "anon_s"], ["anon_bits", "u16"], ["u16", "anon_bits"], ["a_u16_3", "u32", "u8"], ["named_s", "u16"]]
+FIXED_UNIONS = [["anon_s", "u32"], ["u32", "anon_s"], ["anon_bits", "u16"], ["u16", "anon_bits"], ["a_u16_3", "u32", "u8"], ["named_s", "u16"],
+                ["anon_s32", "anon_s3", "u16"], ["anon_s3", "anon_s32", "u8"]]
 
 
 def dynamic_unions():
